@@ -106,6 +106,9 @@ impl Static {
                     } else {
                         tags.iter().any(|t| t == "serial")
                     };
+                    if plan.cfg.tags_filter.as_deref().is_some_and(|expr| !crate::plan::eval_tag_expr(expr, &tags)) {
+                        continue; // rejected by `--tags`: never handed to the runner
+                    }
                     let allow_skipped = tags.iter().any(|t| t == "allow.skipped");
                     let known_delay = if let Some(map) = &plan.cfg.closure_retry {
                         Some(map.get(&name).and_then(|(_, a)| *a))
